@@ -11,13 +11,13 @@ use fmt_table::{FSpec, SPECS};
 const SPEC: Spec = Spec {
     id: "C06",
     engine: "E-prod (exhaustive enumeration of values x radices, format specs, and input strings; real code vs refint Horner evaluation, a padding reference validated against i128, and a grammar recogniser)",
-    rule: "output: every (value, radix) of the stated families through to_str_radix / to_radix_le/be / the five formatter traits x 224 literal format specs; emitted text must be canonical syntax and evaluate (Horner, refint) to the value, and parse back to it. input: every string over a 12-symbol alphabet up to the length bound x 6 radices x both types x 3 entry points against a recogniser of the documented grammar; every digit slice over {0,1,r-2,r-1,r,255} up to length 3 for every radix 2..=256. non-trivial = value >= 2 native digits (output) / string accepted by the grammar (input)",
+    rule: "output: every (value, radix) of the stated families through to_str_radix / to_radix_le/be / the five formatter traits x 276 literal format specs (52 of them with a precision, which integer formatting ignores); emitted text must be canonical syntax and evaluate (Horner, refint) to the value, and parse back to it. input: every string over a 12-symbol alphabet up to the length bound x 6 radices x both types x 3 entry points against a recogniser of the documented grammar; every digit slice over {0,1,r-2,r-1,r,255} up to length 3 for every radix 2..=256. non-trivial = value >= 2 native digits (output) / string accepted by the grammar (input)",
     assumptions: &[
         "values are the stated families (dense small, powers of the radix +-1 around every chunk boundary, 12 patterns at lengths around the 64-digit big-base threshold), not all integers",
         "the padding reference implements the standard integer padding rules and is validated at start-up against i128/u128 formatting for every spec",
         "refint Horner evaluation is trusted; cross-checked against Python on a transcript slice",
     ],
-    bounds_quick: "V1 every integer < 65536 x radix 2..=36 (text) and 2..=256 (digits); V2 Dense(S5,3) x all radices; V3 r^k-1,r^k,r^k+1 for k <= 3*power(r)+2 and at 62..66 / 127..130 native digits, all radices 2..=36 text and 2..=256 digits; V4 12 patterns x every length 1..=70 and {100,129,257} x all radices; V6 dense LCG values of every length 1..=70; V5 big-base powers, all radices; F 224 specs x 5 pinned traits (+ Debug, informational) x 16 values; P1 all strings of length <= 5 over 12 symbols (+bytes <= 4 over 14 byte values); P2 well-formed long inputs, all radices 2..=36; P3 all radices 2..=256; V7 values of 300 and 1100 native digits (dense, all-ones, power of two) x 12 radices",
+    bounds_quick: "V1 every integer < 65536 x radix 2..=36 (text) and 2..=256 (digits); V2 Dense(S5,3) x all radices; V3 r^k-1,r^k,r^k+1 for k <= 3*power(r)+2 and at 62..66 / 127..130 native digits, all radices 2..=36 text and 2..=256 digits; V4 12 patterns x every length 1..=70 and {100,129,257} x all radices; V6 dense LCG values of every length 1..=70; V5 big-base powers, all radices; F 276 specs x 5 pinned traits (+ Debug, informational) x 16 values; P1 all strings of length <= 5 over 12 symbols (+bytes <= 4 over 14 byte values); P2 well-formed long inputs, all radices 2..=36; P3 all radices 2..=256; V7 values of 300 and 1100 native digits (dense, all-ones, power of two) x 12 radices",
     bounds_thorough: "V1 every integer < 2^18; V2; V3 also at 255..258 and 400 native digits; V4 30 lengths up to 1025 (every sqrt boundary of the big-base target length); V5; F; P1 length <= 6 (bytes <= 5); P2; P3; V7 up to 4099 digits",
     hang_secs: 180,
     probes: Some(probes),
